@@ -43,8 +43,52 @@ func (fx *fctx) evalCallInner(st *State, ce *ast.CallExpr) []*Value {
 			return fx.callStatic(st, o, nil, nil, ce)
 		case *types.Var:
 			if v, ok := st.vars[o]; ok && v.Cl != nil {
-				args := fx.evalArgs(st, ce, v.Cl.Lit.Type, info.TypeOf(v.Cl.Lit).(*types.Signature))
-				return fx.inlineBody(st, v.Cl.Lit.Type, v.Cl.Lit.Body, info.TypeOf(v.Cl.Lit).(*types.Signature), nil, nil, args, ce)
+				csig := info.TypeOf(v.Cl.Lit).(*types.Signature)
+				args := fx.evalArgs(st, ce, v.Cl.Lit.Type, csig)
+				var cc *ClosureContract
+				if fx.con != nil && !fx.spec {
+					cc = fx.con.Closures[f.Name]
+				}
+				if cc == nil {
+					return fx.inlineBody(st, v.Cl.Lit.Type, v.Cl.Lit.Body, csig, nil, nil, args, ce)
+				}
+				// closure under contract: requires asserted before, ensures asserted after the inlined body
+				pos := v.Cl.Lit.Body.Lbrace + 1
+				b := fx.visibleBindings(st, pos)
+				pv := fx.declVars(v.Cl.Lit.Type.Params)
+				for i, p := range pv {
+					if p != nil && i < len(args) {
+						b[p.Name()] = args[i]
+					}
+				}
+				fx.callOrd["closure:"+f.Name]++
+				tag := fmt.Sprintf("%s.%d", f.Name, fx.callOrd["closure:"+f.Name])
+				for _, cl := range cc.Requires {
+					g := fx.evalClause(st, nil, cl, b)
+					fx.assert(st, "closure-requires", tag+"/pre"+fmt.Sprint(cl.Ord), g, ce, propsOr(cl.Props, fx.props), "precondition of closure "+f.Name+": "+cl.Text)
+					st.assume(g)
+				}
+				pre := st.clone()
+				res := fx.inlineBody(st, v.Cl.Lit.Type, v.Cl.Lit.Body, csig, nil, nil, args, ce)
+				if !st.dead {
+					b2 := fx.visibleBindings(st, pos)
+					for i, p := range pv {
+						if p != nil && i < len(args) {
+							b2[p.Name()] = args[i]
+						}
+					}
+					for i, r := range res {
+						b2[fmt.Sprintf("result%d", i)] = r
+						if len(res) == 1 {
+							b2["result"] = r
+						}
+					}
+					for _, cl := range cc.Ensures {
+						g := fx.evalClause(st, pre, cl, b2)
+						fx.assert(st, "closure-post", tag+"/post"+fmt.Sprint(cl.Ord), g, ce, propsOr(cl.Props, fx.props), "postcondition of closure "+f.Name+": "+cl.Text)
+					}
+				}
+				return res
 			}
 			fv := fx.eval(st, f)
 			return fx.callDynamic(st, fv, "func value "+f.Name, ce)
@@ -706,6 +750,7 @@ func (fx *fctx) callContract(st *State, fi *FuncInfo, con *Contract, recv *Value
 			bind[n] = args[i]
 		}
 	}
+	fx.preCallHooks(st, ce, args)
 	fx.callOrd[fi.Key]++
 	detail := fmt.Sprintf("%s.%d", fi.Key, fx.callOrd[fi.Key])
 	// value-level type invariants on arguments (e.g. wf of *VMValue) are asserted by the escape hook
@@ -1070,7 +1115,11 @@ func (fx *fctx) intrinsic(st *State, name string, ce *ast.CallExpr) ([]*Value, b
 		} else {
 			p = v.Tm
 		}
-		return []*Value{{T: t, Tm: ts.Or(ts.Eq(p, ts.Int(0)), ts.Ge(p, fx.entry.alloc))}}, true
+		base := fx.entry.alloc
+		if fx.oldState != nil {
+			base = fx.oldState.alloc
+		}
+		return []*Value{{T: t, Tm: ts.Or(ts.Eq(p, ts.Int(0)), ts.Ge(p, base))}}, true
 	case "allocated":
 		p := fx.eval(st, ce.Args[0])
 		return []*Value{{T: t, Tm: ts.And(ts.Gt(p.Tm, ts.Int(0)), ts.Lt(p.Tm, st.alloc))}}, true
@@ -1131,6 +1180,7 @@ func (fx *fctx) callDynamic(st *State, fv *Value, what string, ce *ast.CallExpr)
 	}
 	fx.check(st, "nilfunc", abbrev(e.exprStr(ce.Fun)), ts.Ne(fv.Tm, ts.Int(0)), ce, "call of nil function value")
 	args := fx.evalArgs(st, ce, nil, sig)
+	fx.preCallHooks(st, ce, args)
 	fx.beforeCall(st, nil, args, ce)
 	e.Assumptions["host callback ("+what+") returns normally and respects type invariants"] = true
 	preCB := st.clone()
@@ -1363,4 +1413,14 @@ func (e *Engine) keysOfField(key string) []struct {
 		}
 	}
 	return nil
+}
+
+// preCallHooks runs `ghost at precall N f:` hooks with the evaluated arguments bound to arg0, arg1, ...
+func (fx *fctx) preCallHooks(st *State, ce *ast.CallExpr, args []*Value) {
+	if fx.spec || fx.con == nil || len(fx.con.Hooks) == 0 {
+		return
+	}
+	if ref, ok := fx.callIndex[ce]; ok {
+		fx.runHooks(st, "precall", ref.n, ref.name, ce, args)
+	}
 }
